@@ -132,6 +132,8 @@ class LeanServer:
         self.ok_calls = 0
         self.now_ms = 0
         self.max_calls = 0           # >0: refuse to go on after this many calls (a command that never returns)
+        self.fault_exc = redis.ConnectionError      # what an unreachable server looks like to the client: a RedisError, or OSError /
+                                                    # asyncio.TimeoutError from the socket layer (client.py catches all of them)
         self.spin_limit = 0          # >0: let one tick pass every `spin_limit` calls made at the same virtual instant (busy-wait loops)
         self._spin = 0
         self._spin_t = None
@@ -170,7 +172,7 @@ class LeanServer:
         if self.down(n):
             self.failed_calls += 1
             self.sync_time()
-            raise redis.ConnectionError("stub: connection refused")
+            raise self.fault_exc("stub: connection refused")
         if "~" in toks:
             self.failed_calls += 1
             raise redis.DataError("Invalid input of type: 'NoneType'. Convert to a bytes, string, int or float first.")
@@ -188,7 +190,7 @@ class LeanServer:
         self.trace.append("M:" + ";".join(",".join(t) for t in toks))
         if self.down(n):
             self.failed_calls += 1
-            raise redis.ConnectionError("stub: connection refused")
+            raise self.fault_exc("stub: connection refused")
         self.sync_time()
         self.ok_calls += 1
         return [self._ask(t) for t in toks]
@@ -338,12 +340,12 @@ class ClientPort:
 class Hub:
     """one Lean server (lean/Drivers/C20.lean) shared by several clients"""
 
-    def __init__(self, drv: PersistentDriver, n: int):
+    def __init__(self, drv: PersistentDriver, n: int, prefix: str | None = None):
         self.drv = drv
         self.n = n
         self.now_ms = 0
         self.calls = 0
-        if drv.ask(f"reset {n}") != "ok":
+        if drv.ask(f"reset {n}" + ("" if prefix is None else " " + prefix.encode().hex())) != "ok":
             raise HarnessError("driver refused reset")
         self.ports = [ClientPort(self, i) for i in range(n)]
 
